@@ -20,6 +20,13 @@ solve unsuccessful, or delta > 1e-4.  Otherwise
 Calibration on the unchanged tree (60 random cases while writing + the quick tier): worst ratio
 error/tolerance 0.09; static K=1e17 cases reproduce the closed form to 3e-9.
 
+Known finding KF-C01-dynamic-incomp-quasi-static (compiled; found by the thorough tier, 8 of 6 800 cases of that
+configuration): for a dynamic *incompressible* solid (Kamata starts) at w^2R/g < 1e-6 the lower-order integrators
+converge to a wrong answer: RK23 at rtol 3e-5 and 3e-7 both give k2 = -0.998 (stable under the 100x tighter tolerance,
+success=True) where the closed form - and DOP853, or RK45 at 1e-10 - give 0.75.  The three starting solutions are nearly
+linearly dependent in the quasi-static limit.  Cases of that regime (config, w^2R/g < 1e-6, RK23/RK45) carry
+`regime: quasi_static_low_order` in their signature; everything else failing is a violation.
+
 Non-trivial: converged, all three numbers compared, 1e-2 <= |m_l| <= 1e3.
 
 Sensitivity (tools/mut.py on generated C, all CAUGHT, see DESIGN 2/C01 and the commit log of /verif):
@@ -86,6 +93,9 @@ def fixed_cases(tier):
         out.append({'logR': 6.5, 'logrho': 3.5, 'l': 2, 'logm': 0.0, 'arg': 0.3, 'method': 'DOP853', 'config': cfg,
                     'nondim': True, 'n': 80, 'logr0': -2.0, 'logrtol': -8.0, 'logKf': 8.0, 'u_w': 0.5,
                     'solve_for': ['loading', 'tidal'] if cfg.endswith('kamata') else ['tidal']})
+    # witness of KF-C01-dynamic-incomp-quasi-static (RK23, w^2R/g = 1e-8)
+    out.append({'logR': 7.0, 'logrho': 4.0, 'l': 2, 'logm': 0.0, 'arg': 0.0, 'method': 'RK23', 'config': 'dynamic_incomp_kamata',
+                'nondim': True, 'n': 20, 'logr0': -2.5, 'logrtol': -6.5, 'logKf': 8.0, 'u_w': 0.0, 'solve_for': ['tidal']})
     return out
 
 
@@ -159,8 +169,12 @@ def evaluate(case):
     nontrivial = 1e-2 <= q['m_abs'] <= 1e3
     c = Collector(labels, nontrivial=nontrivial)
     c.label('m:stiff' if q['m_abs'] > 10 else 'm:soft' if q['m_abs'] < 0.1 else 'm:mid')
+    regime = 'regular'
+    if case['config'] == 'dynamic_incomp_kamata' and q['w2'] < 1e-6 and case['method'] in ('RK23', 'RK45'):
+        regime = 'quasi_static_low_order'        # see KF-C01-dynamic-incomp-quasi-static
+    c.label('regime:' + regime)
     for name, e, ref, got in zip('khl', err, (k, h, ll), love1):
-        c.check(e <= tol, {'clause': 'closed_form', 'number': name, 'config': case['config']},
+        c.check(e <= tol, {'clause': 'closed_form', 'number': name, 'config': case['config'], 'regime': regime},
                 '%s: solver %r closed form %r |diff| %.3e tol %.3e (delta %.2e) spec=%r' % (name, complex(got), ref, e, tol, delta, q))
     return c.result()
 
